@@ -1746,9 +1746,16 @@ def _hkinds(variant):
 
 
 # ------------------------------------------------------------------ serialisation round trip (C12)
-class _Token:
-    def __init__(self, obj):
-        self.obj = obj
+class _Token(str):
+    """what the stubbed codec hands back as 'the text': a str (the readers accept a document string), unique per dump, naming no
+    existing file, carrying the dumped value"""
+    _n = 0
+
+    def __new__(cls, obj):
+        _Token._n += 1
+        t = str.__new__(cls, f"pverif-token-{_Token._n}.doc")
+        t.obj = obj
+        return t
 
 
 def _to_plain(o, json_mode=False):
@@ -1873,6 +1880,8 @@ def roundtrip_case(v, shape, fmt):
             S2 = from_(text)
             text2 = to_(S2)
             eq = bool(S2 == S)
+            S3 = from_(text)  # reading the same document again yields the same schema (every read, not only the first)
+            asserts.append(("roundtrip/equal_on_second_read", v.holds(bool(S3 == S))))
             n_checks = (sum(len(c.checks) for c in S.columns.values()) + len(S.checks), sum(len(c.checks) for c in S2.columns.values()) + len(S2.checks))
             if v.sym:
                 same_text = _plain_equal(v, text.obj, text2.obj)
@@ -1964,7 +1973,8 @@ def infer_case(v, shape, kinds, N, serialise):
                 asserts.append(("infer/survives_serialisation", v.holds(o2["kind"] == "accept")))
                 facts["reloaded"] = o2["kind"]
             except Exception as exc:  # noqa: BLE001
-                facts["reloaded"] = "raised:" + type(exc).__name__ + ":" + str(exc)[:80]
+                facts["reloaded"] = "raised:" + type(exc).__name__
+                facts["_reload_msg"] = str(exc)[:80]  # message text is outside the claim (not compared between the two sides)
                 asserts.append(("infer/survives_serialisation", v.holds(False)))
     finally:
         if saved[0] is None:
@@ -1996,9 +2006,14 @@ def _stub_dtype(v, u, target="float64"):
                 bad = zor(z3.And(p, v.z(u[_slot(x)])) for x, p in zip(data_container.vals, data_container.present))
                 if eng().branch(bad):
                     raise ValueError("stub: cannot convert")
-                return data_container._new(vals=[z3.ToReal(x) if z3.is_int(x) else x for x in data_container.vals], dtype=np.dtype(target), kind="float")
-            if any(bool(u[int(x)]) for x in data_container.tolist()):
+                return data_container._new(vals=[z3.RealVal(x.slot) if isinstance(x, EqCell) else (z3.ToReal(x) if z3.is_int(x) else x) for x in data_container.vals],
+                                           dtype=np.dtype(target), kind="float")
+            if any(bool(u[_slot(x)]) for x in data_container.tolist()):
                 raise ValueError("stub: cannot convert")
+            if any(isinstance(x, EqCell) for x in data_container.tolist()):
+                import pandas as _pd
+
+                return _pd.Series([float(_slot(x)) for x in data_container.tolist()], index=data_container.index, name=data_container.name, dtype=target)
             return data_container.astype(target)
 
         def coerce_value(self, value):
@@ -2011,8 +2026,34 @@ def _stub_dtype(v, u, target="float64"):
     return StubDT(np.dtype(target))
 
 
+class EqCell:
+    """an element that knows its slot; two cells with the same key compare equal and hash alike (like 1, 1.0 and True do) although
+    the element conversion may treat them differently"""
+
+    def __init__(self, slot, key):
+        self.slot, self.key = slot, key
+
+    def __eq__(self, o):
+        return isinstance(o, EqCell) and o.key == self.key
+
+    def __hash__(self):
+        return hash(("EqCell", self.key))
+
+    def __repr__(self):
+        return f"cell{self.slot}(key={self.key})"
+
+    def __deepcopy__(self, memo):
+        return self
+
+    def __lt__(self, o):
+        return self.slot < o.slot
+
+
 def _slot(x):
     from symx import SymInt as _SI, SymReal as _SR
+
+    if isinstance(x, EqCell):
+        return x.slot
 
     if isinstance(x, (_SI, _SR)):
         x = x.z
@@ -2029,14 +2070,18 @@ def _slot(x):
 from symx import ModelGap as ModelGapT  # noqa: E402
 
 
-def coerce_stub_case(v, N, container):
-    """the real try_coerce / numpy_pandas_coerce_failure_cases protocol over the stub pair"""
+def coerce_stub_case(v, N, container, keys=None):
+    """the real try_coerce / numpy_pandas_coerce_failure_cases protocol over the stub pair.  keys: None = the elements are the
+    slot numbers; a list = object elements, slots with the same key compare equal (and hash alike) but convert independently"""
     from pandera import errors as E
 
     u = [v.bool(f"u{i}") for i in range(N)]
     dt = _stub_dtype(v, u)
     labels = [z3.Int(f"l{i}") for i in range(N)]
-    obj = v.frame([("c", "int", False, list(range(N)))], N, labels="l", distinct_labels=True)
+    if keys is None:
+        obj = v.frame([("c", "int", False, list(range(N)))], N, labels="l", distinct_labels=True)
+    else:
+        obj = v.frame([("c", "object", False, [EqCell(i, keys[i]) for i in range(N)])], N, labels="l", distinct_labels=True)
     ser = obj["c"] if not v.sym else obj._get("c")
     if container == "index":
         raise KeyError(container)
@@ -2046,10 +2091,12 @@ def coerce_stub_case(v, N, container):
         out = dt.try_coerce(ser)
         facts["kind"] = "coerced"
         asserts.append(("coerce/succeeds_only_if_all_convertible", v.holds(z3.Not(zor(v.z(x) for x in u)))))
-        asserts.append(("coerce/same_rows_and_labels", H.equal_to_snapshot(v, out, snap, values_only=True)))
+        if keys is None:  # (object elements have no numeric value to compare; the clauses below are asserted on the numeric templates)
+            asserts.append(("coerce/same_rows_and_labels", H.equal_to_snapshot(v, out, snap, values_only=True)))
         asserts.append(("coerce/result_passes_dtype_check", v.holds(bool(dt.check(pa_engine_dtype(out.dtype))))))
-        out2 = dt.try_coerce(out)
-        asserts.append(("coerce/idempotent", H.equal_to_snapshot(v, out2, H.snapshot(out))))
+        if keys is None:
+            out2 = dt.try_coerce(out)
+            asserts.append(("coerce/idempotent", H.equal_to_snapshot(v, out2, H.snapshot(out))))
     except E.ParserError as exc:
         facts["kind"] = "ParserError"
         fc = exc.failure_cases
@@ -2062,13 +2109,13 @@ def coerce_stub_case(v, N, container):
             R = len(fc.present)
             comp, sound = [], []
             for i in range(N):
-                hit = zor(z3.And(fc.present[r], _num_eq(cols["index"].vals[r], labels[i]), _num_eq(cols["failure_case"].vals[r], z3.IntVal(i))) for r in range(R))
+                hit = zor(z3.And(fc.present[r], _num_eq(cols["index"].vals[r], labels[i]), _is_slot(cols["failure_case"].vals[r], i)) for r in range(R))
                 comp.append(z3.Implies(v.z(u[i]), hit))
             for r in range(R):
-                sound.append(z3.Implies(fc.present[r], zor(z3.And(v.z(u[i]), _num_eq(cols["index"].vals[r], labels[i]), _num_eq(cols["failure_case"].vals[r], z3.IntVal(i))) for i in range(N))))
+                sound.append(z3.Implies(fc.present[r], zor(z3.And(v.z(u[i]), _num_eq(cols["index"].vals[r], labels[i]), _is_slot(cols["failure_case"].vals[r], i)) for i in range(N))))
             asserts.append(("coerce/failure_cases_exact", v.holds(z3.And(zand(comp), zand(sound)))))
         else:
-            got = sorted((int(r["index"]), int(r["failure_case"])) for _, r in fc.iterrows())
+            got = sorted((int(r["index"]), _slot(r["failure_case"])) for _, r in fc.iterrows())
             want = sorted((int(v.vals.term(labels[i])), i) for i in range(N) if bool(u[i]))
             asserts.append(("coerce/failure_cases_exact", got == want))
     except Exception as exc:  # noqa: BLE001
@@ -2077,6 +2124,12 @@ def coerce_stub_case(v, N, container):
         asserts.append(("coerce/documented_error", v.holds(False)))
     asserts.append(("coerce/input_unchanged", H.equal_to_snapshot(v, ser, snap)))
     return dict(obs=None, asserts=asserts, facts=facts)
+
+
+def _is_slot(val, i):
+    if isinstance(val, EqCell):
+        return z3.BoolVal(val.slot == i)
+    return _num_eq(val, z3.IntVal(i))
 
 
 def pa_engine_dtype(dt):
